@@ -468,3 +468,93 @@ def must_call_before(ctx, col: Collector, rule: str, fi: FuncInfo, name: str, ca
         return False
     col.ok(rule, cons, f'every path calls {callee}(...) before the protected use ({n} positions)', node=fi.node, file=fi.file)
     return True
+
+
+def collect_filters(fn: ast.AST) -> List[Dict[str, object]]:
+    """Selections in fn, whether written as a comprehension/generator or as a loop that appends/yields:
+    [{'iter': src, 'var': name, 'elt': src, 'conds': [src without spaces], 'node': node}]."""
+    out: List[Dict[str, object]] = []
+    for n in ast.walk(fn):
+        if isinstance(n, (ast.ListComp, ast.GeneratorExp, ast.SetComp)) and len(n.generators) == 1:
+            g = n.generators[0]
+            out.append({'iter': norm(g.iter), 'var': norm(g.target), 'elt': norm(n.elt), 'conds': [norm(i).replace(' ', '') for i in g.ifs], 'node': n,
+                        'terms': [c for i in g.ifs for c in conjuncts(term(i, True))]})
+        if isinstance(n, ast.For):
+            var = norm(n.target)
+
+            def harvest(body, conds, terms=()):
+                for st in body:
+                    if isinstance(st, ast.If) and not st.orelse:
+                        harvest(st.body, conds + [norm(st.test).replace(' ', '')], tuple(terms) + tuple(conjuncts(term(st.test, True))))
+                    elif isinstance(st, ast.Expr) and isinstance(st.value, ast.Call) and isinstance(st.value.func, ast.Attribute) \
+                            and st.value.func.attr in ('append', 'add') and len(st.value.args) == 1:
+                        out.append({'iter': norm(n.iter), 'var': var, 'elt': norm(st.value.args[0]), 'conds': list(conds), 'node': n,
+                                    'into': norm(st.value.func.value), 'terms': list(terms)})
+                    elif isinstance(st, ast.Expr) and isinstance(st.value, ast.Yield) and st.value.value is not None:
+                        out.append({'iter': norm(n.iter), 'var': var, 'elt': norm(st.value.value), 'conds': list(conds), 'node': n, 'terms': list(terms)})
+            harvest(n.body, [])
+    return out
+
+
+def select_filter(fn: ast.AST, iter_src: str, want_terms, elt_is_var: bool = True, elt_pred=None):
+    """Judge a selection over `iter_src`: ('ok'|'bad'|'none', entry) - ok if some selection over it has exactly the wanted
+    condition literals (a set of cond terms with VAR standing for the loop variable); bad if selections over it exist but none
+    has them; none if nothing in fn iterates iter_src."""
+    cands = [f for f in collect_filters(fn) if f['iter'] == iter_src]
+    if not cands:
+        return 'none', None
+    for f in cands:
+        v = f['var']
+        want = {_sub_var(t, v) for t in want_terms}
+        if set(f['terms']) == want and ((not elt_is_var) or f['elt'] == v) and (elt_pred is None or elt_pred(f)):
+            return 'ok', f
+    return 'bad', cands[0]
+
+
+def _sub_var(t, v):
+    if isinstance(t, tuple):
+        return tuple(_sub_var(x, v) for x in t)
+    if isinstance(t, str):
+        return t.replace('VAR', v)
+    return t
+
+
+def inline_single_assignment_locals(fn: ast.AST) -> ast.AST:
+    """Copy of fn in which every local that is bound exactly once (plain `name = expr`, not in a loop, not a parameter,
+    not augmented) is replaced by its value at its uses and the binding is dropped - "split into named pieces" undone."""
+    import copy as _copy
+    fn2 = _copy.deepcopy(fn)
+    params = {a.arg for a in list(fn2.args.args) + list(fn2.args.kwonlyargs)} if hasattr(fn2, 'args') else set()
+    for _ in range(6):
+        counts: Dict[str, int] = {}
+        values: Dict[str, ast.AST] = {}
+        in_loop: Set[str] = set()
+        for n in ast.walk(fn2):
+            if isinstance(n, ast.Name) and isinstance(n.ctx, (ast.Store, ast.Del)):
+                counts[n.id] = counts.get(n.id, 0) + 1
+            if isinstance(n, (ast.For, ast.While)):
+                for x in ast.walk(n):
+                    if isinstance(x, ast.Name) and isinstance(x.ctx, ast.Store):
+                        in_loop.add(x.id)
+            if isinstance(n, (ast.comprehension,)):
+                for x in ast.walk(n.target):
+                    if isinstance(x, ast.Name):
+                        in_loop.add(x.id)
+        for st in getattr(fn2, 'body', []):
+            if isinstance(st, ast.Assign) and len(st.targets) == 1 and isinstance(st.targets[0], ast.Name):
+                values[st.targets[0].id] = st.value
+        todo = {k: v for k, v in values.items() if counts.get(k) == 1 and k not in params and k not in in_loop
+                and not any(isinstance(x, ast.Name) and x.id == k for x in ast.walk(v))}
+        if not todo:
+            break
+        name, val = sorted(todo.items())[0]
+
+        class R(ast.NodeTransformer):
+            def visit_Name(self, node):
+                if node.id == name and isinstance(node.ctx, ast.Load):
+                    return ast.copy_location(_copy.deepcopy(val), node)
+                return node
+        fn2.body = [R().visit(st) for st in fn2.body if not (isinstance(st, ast.Assign) and len(st.targets) == 1 and isinstance(st.targets[0], ast.Name)
+                                                              and st.targets[0].id == name)]
+    ast.fix_missing_locations(fn2)
+    return fn2
